@@ -231,7 +231,7 @@ def post_interpreter(expr, context, dimensions, result, OLD):
         want = refops.evaluate(old, context, dimensions)
     except Exception as e:  # noqa: BLE001
         return _rec("C16", fn, False, f"accepted an expression the reference rejects: {e}", cell=cell, mode="accepted-malformed", head=str(head))
-    ok, d = _cmp(result, want, 1e-8)
+    ok, d = _cmp(result, want, 2e-6 if _has_expm(old) else 1e-8)
     if not ok:
         return _rec("C16", fn, False, f"{d} expr={_brief(old)}", cell=cell, mode="wrong-value", head=str(head))
     # caller-owned leaves unchanged
@@ -240,6 +240,14 @@ def post_interpreter(expr, context, dimensions, result, OLD):
         if x.shape != b.shape or x.tobytes() != np.asarray(b, dtype=x.dtype).tobytes():
             return _rec("C16", fn, False, f"array leaf modified in place by '{head}': expr={_brief(old)}", cell=cell, mode="leaf-mutated", head=str(head))
     return _rec("C16", fn, True, "", cell=cell, head=str(head))
+
+
+def _has_expm(e):
+    """matrix exponentials are computed by two different Pade implementations (jax / scipy); with exponent norms
+    of a few hundred they agree to ~1e-7, not 1e-8"""
+    if isinstance(e, tuple):
+        return (len(e) > 0 and e[0] == "expm") or any(_has_expm(x) for x in e[1:])
+    return False
 
 
 def _tree_depth(e):
